@@ -60,6 +60,12 @@ fn kinds(cfg: &CfgD) -> Vec<Kind> {
     ]);
     let edims = build_entry(cfg, Frame { ts: TsD::Small, edims: EDimsD::Two, dim_strings_last: true, always_split: false },
         vec![(s("M"), m(vec![Obs::U(3)], vec![]))]);
+    // split records under entry-level dimension sets, sharing the per-metric dimension set
+    // k=v with `split2` (whose base dimension sets are the configured ones)
+    let split_edims = build_entry(cfg, Frame { ts: TsD::Big, edims: EDimsD::One, dim_strings_last: false, always_split: false },
+        vec![(s("M"), m(vec![Obs::U(5)], vec![(s("k"), s("v"))])), (s("G"), m(vec![Obs::U(1)], vec![]))]);
+    let split_edims2 = build_entry(cfg, Frame { ts: TsD::Big, edims: EDimsD::Two, dim_strings_last: false, always_split: false },
+        vec![(s("M"), m(vec![Obs::U(5)], vec![(s("k"), s("v"))]))]);
     let mut edims_twice = edims.clone();
     edims_twice.ops.insert(0, OpD::Config(ConfD::EntryDims(vec![vec![s("E")]])));
     let unroutable = EntryD { ops: vec![OpD::Config(ConfD::Unroutable), OpD::Value(s("MetriqueValidationError"), ValD::Str(s("in-band error report")))] };
@@ -81,6 +87,8 @@ fn kinds(cfg: &CfgD) -> Vec<Kind> {
         k("defect-dimensions-without-split", no_split, None),
         k("split-two-sets", split2.clone(), None),
         k("entry-dimensions", edims.clone(), None),
+        k("split-under-entry-dimensions", split_edims, None),
+        k("split-under-two-entry-dimension-sets", split_edims2, None),
         k("defect-entry-dimensions-twice", edims_twice, None),
         k("unroutable-error-entry", unroutable_ts, None),
         k("io-failure-at-0-entry-dimensions", edims.clone(), Some(0)),
